@@ -97,7 +97,7 @@ def admissible (op : String) (hasVid : Bool) (directStatus : String) : List Stri
         if hasVid && Gen.S3ClientMap.getObjectHeadOptions == "nil" then
           -- the pre-flight looks at the current version: it may pass (then GetObject itself fails) or hit a 404
           roundTrip t "GetObject" false e ++ roundTrip t "HeadObject" true .noSuchKey
-        else roundTrip t "HeadObject" true e
+        else roundTrip t "HeadObject" true e ++ roundTrip t "GetObject" false e
       else ms.flatMap fun (m, h) => roundTrip t m h e
     kinds.map (·.toString)
 
